@@ -36,6 +36,9 @@ func (dp decProp) body(o decOpts, st *propStats) func(t *rapid.T) {
 			// the caller brings an array of its own
 			cc := c.Cfg.completed()
 			c.PreCap = int64(genSize(t, "preCapSmall", minInt(3*cc.BufferSize+64, 1<<17), 1, cc.BufferSize-1, cc.BufferSize, cc.BufferSize+1, cc.WindowSize))
+			if c.PreCap == 0 || rapid.IntRange(0, 5).Draw(t, "emptyNotNil") == 0 {
+				c.PreCap = -1
+			}
 		}
 		x, err := newDecExec(c)
 		if err != nil {
